@@ -53,8 +53,11 @@ EmptySig == <<"AttributeError", "_checkarg_sizes.<locals>.checkarg_sizes", "_che
               "MemoryZone.locate", "graph.add_vertex", "Graph.add_edge">>
 AnonSig  == <<"AttributeError", "Graph.add_edge", "graph.__cut_add_vertex", "graph.add_vertex">>
 SigIs(sig, pat) == Len(sig) >= Len(pat) /\ SubSeq(sig, 1, Len(pat)) = pat
-(* the deviations cfg.py / memory.py have today (CfgOps.tla)                 *)
-AsIs == {"SplitSelfLoop", "HistCopySlice", "EmptyOldEdge", "AnonSplitEdge", "FirstBlockSwallow", "CutPathSwallow"}
+(* the named deviations of CfgOps.tla; which of them the tree under test has *)
+(* is decided by TLC itself from probe histories (kind = "probe", below) and *)
+(* travels with every graph trace as the field asis                          *)
+AllDevs == {"SplitSelfLoop", "HistCopySlice", "EmptyOldEdge", "AnonSplitEdge", "FirstBlockSwallow", "CutPathSwallow"}
+AsIs == {T.asis[i] : i \in 1..Len(T.asis)}
 (* the clauses a deviation can make fail                                     *)
 Explains(F) == CASE F = "SplitSelfLoop" -> {"FallThrough"}
                  [] F \in {"HistCopySlice", "EmptyOldEdge", "AnonSplitEdge"} -> {"Raised"}
@@ -176,6 +179,9 @@ StepM(m, nd, e, D) ==
   ELSE IF e.op = "readd" THEN ReAddV(m, nd[e.n], D)
   ELSE LinkM(m, e.x, e.y, D)
 (* what an observer sees of a model state / what was observed                *)
+(* (kind = "probe": a few canonical histories run on the tree under test;    *)
+(* TLC picks the smallest set D of named deviations such that the model      *)
+(* with exactly D reproduces every observation of every probe history)       *)
 ProjM(m)  == [lay |-> Layout(m, m.sup), ed |-> EdgeAddrs(m), err |-> m.err]
 ProjO(e)  == [lay |-> e.lay, ed |-> ToSet(e.ed),
               err |-> IF e.exc = "" THEN ""
@@ -183,6 +189,25 @@ ProjO(e)  == [lay |-> e.lay, ed |-> ToSet(e.ed),
                       ELSE IF SigIs(e.sig, EmptySig) THEN "AttributeError:empty"
                       ELSE IF SigIs(e.sig, AnonSig) THEN "AttributeError:anon"
                       ELSE "other:" \o e.exc]
+RECURSIVE MatchFrom(_, _, _, _, _)
+MatchFrom(m, nd, steps, i, D) ==
+  IF i > Len(steps) THEN TRUE
+  ELSE LET e  == steps[i]
+           m2 == IF e.op = "add" THEN AddV(m, e.bd, D)
+                 ELSE IF e.op = "readd" THEN ReAddV(m, nd[e.n], D)
+                 ELSE LinkM(m, e.x, e.y, D)
+       IN ProjM(m2) = ProjO(e)
+          /\ MatchFrom(m2, IF e.op = "add" THEN Append(nd, Len(m.blk) + 1) ELSE nd, steps, i + 1, D)
+ProbeCands(t) == {D \in SUBSET AllDevs : \A h \in 1..Len(t.hists) : MatchFrom(EmptyG, <<>>, t.hists[h].steps, 1, D)}
+ProbeStep ==
+  /\ ~done /\ T.kind = "probe" /\ l = 1
+  /\ LET C == ProbeCands(T) IN
+     IF C = {} THEN PrintT(ToJson([t |-> T.t, probe |-> "none", asis |-> {}]))
+     ELSE PrintT(ToJson([t |-> T.t, probe |-> "ok",
+                         asis |-> CHOOSE D \in C : \A D2 \in C : Cardinality(D) <= Cardinality(D2)]))
+  /\ l' = 2 /\ done' = TRUE
+  /\ UNCHANGED <<tid, mi, ma, nodes, nodesA, pLay, pEd, ins, gone, verdict, known, drift>>
+
 (* deviations of today's code that made a difference in this step            *)
 Fired(m, nd, e) == {F \in AsIs : ProjM(StepM(m, nd, e, AsIs \ {F})) # ProjM(StepM(m, nd, e, AsIs))}
 
@@ -238,6 +263,6 @@ Finish ==
   /\ PrintT(ToJson([t |-> T.t, verdict |-> verdict, known |-> known, drift |-> drift]))
   /\ UNCHANGED <<tid, l, mi, ma, nodes, nodesA, pLay, pEd, ins, gone, verdict, known, drift>>
 
-Next == SweepStep \/ GraphStep \/ Finish
+Next == SweepStep \/ GraphStep \/ ProbeStep \/ Finish
 Spec == Init /\ [][Next]_vars
 =============================================================================
